@@ -1637,3 +1637,79 @@ Lemma ex_run :
   [ OOk; OOk; OErr EAlreadyExists; OOk; ODesc ex_man; ODesc (mkDesc 0 2 5 0);
     OPreds [(1, 1, 10)]; OOk; OErr ENotFound; OPreds []; OErr ENotFound ].
 Proof. vm_compute. reflexivity. Qed.
+
+(* ================================================================== *)
+(* "No operation ever returns bytes that do not match its descriptor"  *)
+(* ================================================================== *)
+Definition cas_verified (cas : list (gkey * blob)) : Prop :=
+  forall k c, get gkey_eqb k cas = Some c -> b_hash c = k_dig k /\ b_len c = k_size k.
+
+Lemma mem_step_verified s o : cas_verified (m_cas s) -> cas_verified (m_cas (fst (mem_step s o))).
+Proof.
+  intro H. destruct o; simpl; auto.
+  - destruct (get gkey_eqb (gk d) (m_cas s)) eqn:E; auto. destruct (verify d c) eqn:V; auto. simpl.
+    intros k c0. destruct (gdec k (gk d)) as [->|Hne].
+    + rewrite (get_put_eq gkey_eqb gkey_eqb_spec). intro X. injection X as <-. now apply verify_spec.
+    + rewrite (get_put_neq gkey_eqb gkey_eqb_spec) by exact Hne. apply H.
+  - destruct (get gkey_eqb (gk d) (m_cas s)); auto.
+  - destruct (is_some _); auto.
+  - destruct (get ref_eqb r (r_index (m_res s))); auto.
+Qed.
+
+Lemma mem_run_verified h : forall s, cas_verified (m_cas s) -> cas_verified (m_cas (fst (run mem_step s h))).
+Proof.
+  induction h as [|o h IH]; intros s H; [exact H|]. rewrite run_cons. cbn [fst]. apply IH.
+  now apply mem_step_verified.
+Qed.
+
+(* memory: whatever Fetch returns has the digest and the size of the requested descriptor *)
+Lemma mem_fetch_matches h d hash len :
+  snd (mem_step (fst (run mem_step mem_init h)) (Fetch d)) = OBytes hash len ->
+  hash = d_dig d /\ len = d_size d.
+Proof.
+  assert (H : cas_verified (m_cas (fst (run mem_step mem_init h)))).
+  { apply mem_run_verified. intros k c X. discriminate. }
+  simpl. destruct (get gkey_eqb (gk d) (m_cas (fst (run mem_step mem_init h)))) as [c|] eqn:E; [|discriminate].
+  intro X. injection X as <- <-. apply (H _ _ E).
+Qed.
+
+Definition blobs_verified (blobs : list (N * blob)) : Prop :=
+  forall g c, get N.eqb g blobs = Some c -> b_hash c = g.
+
+Lemma oci_step_verified s o : blobs_verified (o_blobs s) -> blobs_verified (o_blobs (fst (oci_step s o))).
+Proof.
+  intro H. destruct o; simpl; auto.
+  - destruct (get N.eqb (d_dig d) (o_blobs s)) eqn:E; auto. destruct (verify d c) eqn:V; auto. simpl.
+    intros g c0. destruct (N.eq_dec g (d_dig d)) as [->|Hne].
+    + rewrite (get_put_eq N.eqb Neqb_spec). intro X. injection X as <-. now apply verify_spec in V as [V _].
+    + rewrite (get_put_neq N.eqb Neqb_spec) by exact Hne. apply H.
+  - destruct (get N.eqb (d_dig d) (o_blobs s)); auto.
+  - destruct r; auto; destruct (is_some _); auto.
+  - destruct r as [m|g|]; auto.
+    + destruct (get ref_eqb (RName m) (r_index (o_res s))); auto.
+    + destruct (get ref_eqb (RDig g) (r_index (o_res s))); auto; destruct (get N.eqb g (o_blobs s)); auto.
+  - destruct r as [m|g|]; auto.
+    + destruct (get ref_eqb (RName m) (r_index (o_res s))) as [d1|]; auto; destruct (ref_eqb _ (RDig (d_dig d1))); auto.
+    + destruct (get ref_eqb (RDig g) (r_index (o_res s))) as [d1|]; auto; destruct (ref_eqb _ (RDig (d_dig d1))); auto.
+  - destruct (get N.eqb (d_dig d) (o_blobs s)) eqn:E; simpl; auto.
+    intros g c0 X. destruct (N.eq_dec g (d_dig d)) as [->|Hne].
+    + rewrite (get_del_eq N.eqb) in X. discriminate.
+    + rewrite (get_del_neq N.eqb Neqb_spec) in X by exact Hne. now apply H.
+Qed.
+
+Lemma oci_run_verified h : forall s, blobs_verified (o_blobs s) -> blobs_verified (o_blobs (fst (run oci_step s h))).
+Proof.
+  induction h as [|o h IH]; intros s H; [exact H|]. rewrite run_cons. cbn [fst]. apply IH.
+  now apply oci_step_verified.
+Qed.
+
+(* OCI (content addressed by digest; the size field of the request is not consulted):
+   whatever Fetch returns hashes to the requested digest -- for every history, canonical or not *)
+Lemma oci_fetch_matches h d hash len :
+  snd (oci_step (fst (run oci_step oci_init h)) (Fetch d)) = OBytes hash len -> hash = d_dig d.
+Proof.
+  assert (H : blobs_verified (o_blobs (fst (run oci_step oci_init h)))).
+  { apply oci_run_verified. intros g c X. discriminate. }
+  simpl. destruct (get N.eqb (d_dig d) (o_blobs (fst (run oci_step oci_init h)))) as [c|] eqn:E; [|discriminate].
+  intro X. injection X as <- _. apply (H _ _ E).
+Qed.
